@@ -209,6 +209,31 @@ func c12(r *engine.Report, p *engine.Program) {
 		fmt.Sprintf("%d regex comparers, each calling MatchString on the anchored pattern", nMatch), fmt.Sprintf("%d of %d comparers call MatchString", nMatch, len(reCmp.AnonFuncs)))
 
 	// R4/R5 evaluation order in handleMessageData
+	// R1c a malformed pattern is an error, never a panic: no index/slice in the rule builders that
+	// the compiler cannot prove in bounds (the report is the compiler's own bounds-check analysis)
+	{
+		us, err := p.BCEReport("")
+		if err != nil {
+			r.Broken("BCE report: %v", err)
+		} else {
+			builderSet := map[*ssa.Function]bool{}
+			for _, f := range []*ssa.Function{parseRules, parseRule, buildComps, buildComp, reCmp, strCmp, fwRule} {
+				builderSet[f] = true
+				for _, an := range f.AnonFuncs {
+					builderSet[an] = true
+				}
+			}
+			n := 0
+			for _, u := range us {
+				if u.Fn != nil && builderSet[u.Fn] {
+					n++
+				}
+			}
+			boundsObligations(r, p, "R1-bounds", func(fn *ssa.Function) bool { return builderSet[fn] }, us)
+			r.Check("R1-bounds", "rule builders: index/slice operations compiler-proven or covered by a stated idiom", token.NoPos, true,
+				fmt.Sprintf("%d unproven operation(s) in the seven rule-construction functions (each is its own obligation)", n), "")
+		}
+	}
 	firewallPathRules(r, p, hmd)
 	ruleOrderRules(r, p)
 
